@@ -101,8 +101,38 @@ pub fn c15_line(s: &mut Src, obs_labels: &mut Vec<&'static str>) -> Vec<u8> {
         }
         _ => {
             obs_labels.push("non_utf8");
-            let raw: [&[u8]; 6] = [b"X-A: \xff", b"\xff: v", b"\xc3\x28: \xa0\xa1", b"Content-Length: 5\xfe", b"\x80", b"Accept-Encoding: gzip\xc0"];
-            raw[s.below(raw.len())].to_vec()
+            if s.chance(90) {
+                let raw: [&[u8]; 6] = [b"X-A: \xff", b"\xff: v", b"\xc3\x28: \xa0\xa1", b"Content-Length: 5\xfe", b"\x80", b"Accept-Encoding: gzip\xc0"];
+                return raw[s.below(raw.len())].to_vec();
+            }
+            // any otherwise generated line with an ill-formed sequence injected anywhere:
+            // in the name, at the colon, in the value (of every recognised field), at either end
+            let mut base = loop {
+                let mut scratch = Vec::new();
+                let l = c15_line(s, &mut scratch);
+                if std::str::from_utf8(&l).is_ok() {
+                    break l;
+                }
+            };
+            let bad: [&[u8]; 7] = [b"\xff", b"\x80", b"\xc3", b"\xe2\x82", b"\xc0\xaf", b"\xed\xa0\x80", b"\xf8\x88\x80\x80\x80"];
+            let seq = bad[s.below(bad.len())];
+            // insert on a character boundary so that the rest of the line stays as generated
+            let mut at = match s.weighted(&[3, 3, 2, 2]) {
+                0 => s.below(base.len() + 1),
+                1 => base.len(),
+                2 => base.iter().position(|b| *b == b':').map(|i| i + 1).unwrap_or(0),
+                _ => 0,
+            };
+            while at < base.len() && (base[at] & 0xc0) == 0x80 {
+                at += 1;
+            }
+            let tail = base.split_off(at);
+            base.extend_from_slice(seq);
+            base.extend_from_slice(&tail);
+            if std::str::from_utf8(&base).is_ok() {
+                base.push(0xff);
+            }
+            base
         }
     }
 }
@@ -727,6 +757,58 @@ fn c16_misc(_input: &Input, obs: &mut Obs) -> Result<(), Fail> {
             }
         }
     }
+    // any amount of surrounding whitespace: every run length 0..=300 and a few long ones, per
+    // kind and side; the same amount of non-trimmed padding around methods and versions rejects
+    let lens: Vec<usize> = (0..=300).chain([511, 512, 1000, 1023, 1024, 1025, 4096, 70_000]).collect();
+    for (mi, m) in ["text/plain", "application/json"].iter().enumerate() {
+        let want = Some(if mi == 0 { Media::Plain } else { Media::Json });
+        for w in &ws[1..] {
+            for &k in &lens {
+                if k > 5000 && w.len() > 1 {
+                    continue;
+                }
+                let pad = w.repeat(k);
+                for s in [format!("{}{}", pad, m), format!("{}{}", m, pad), format!("{}{}{}", pad, m, pad)] {
+                    n += 1;
+                    let got = MediaType::try_from(s.as_bytes()).ok().map(media_code);
+                    if got != want {
+                        return Err(Fail::new("C16:media-padding", format!("MediaType::try_from(\"{}\") = {:?}", esc(s.as_bytes()), got)));
+                    }
+                }
+                if k >= 1 {
+                    let s = format!("{}x{}", pad, m);
+                    n += 1;
+                    if MediaType::try_from(s.as_bytes()).is_ok() {
+                        return Err(Fail::new("C16:media-padding", format!("MediaType::try_from(\"{}\") accepted", esc(s.as_bytes()))));
+                    }
+                }
+            }
+        }
+    }
+    for &k in &lens {
+        if k == 0 {
+            continue;
+        }
+        for w in [" ", "\t", "\0"] {
+            let pad = w.repeat(k);
+            for t in ["GET", "PUT", "PATCH"] {
+                for s in [format!("{}{}", pad, t), format!("{}{}", t, pad)] {
+                    n += 1;
+                    if Method::try_from(s.as_bytes()).is_ok() {
+                        return Err(Fail::new("C16:method", format!("Method::try_from(\"{}\") accepted", esc(s.as_bytes()))));
+                    }
+                }
+            }
+            for t in ["HTTP/1.0", "HTTP/1.1"] {
+                for s in [format!("{}{}", pad, t), format!("{}{}", t, pad)] {
+                    n += 1;
+                    if Version::try_from(s.as_bytes()).is_ok() {
+                        return Err(Fail::new("C16:version", format!("Version::try_from(\"{}\") accepted", esc(s.as_bytes()))));
+                    }
+                }
+            }
+        }
+    }
     // a canonical token next to other content, separated by whitespace, is not the token
     for m in ["text/plain", "application/json"] {
         for w in [" ", "\t", "\n", "\u{a0}", "  "] {
@@ -783,7 +865,7 @@ fn c16_misc(_input: &Input, obs: &mut Obs) -> Result<(), Fail> {
     }
     obs.extra_evals = n - 1;
     obs.extra_nontrivial = n;
-    obs.render = "media types x 0..2 whitespace items each side (8 kinds) + non-whitespace padding; round trips; 11 status codes".into();
+    obs.render = "media types x 0..2 whitespace items each side (8 kinds) + non-whitespace padding; whitespace runs of every length 0..300 and up to 70000 on either or both sides; padded methods/versions; round trips; 11 status codes".into();
     Ok(())
 }
 
@@ -1120,7 +1202,26 @@ fn c17_tables(input: &Input, obs: &mut Obs) -> Result<(), Fail> {
     let regs: Vec<(u8, usize)> = (0..nreg).map(|_| (s.below(3) as u8, s.below(PATHS.len()))).collect();
     let nreq = s.range(1, 6);
     let reqs: Vec<(u8, String)> = (0..nreq).map(|_| (s.below(3) as u8, c17_uri_for(&mut s, prefix))).collect();
-    let sid = ["Mock_Server", "", "id with spaces", "\u{e9}"][s.weighted(&[10, 1, 2, 1])];
+    // the identity is an arbitrary string: fixed ones, or 0..12 characters over an alphabet with
+    // HTAB, other control characters, spaces at the ends, ':' and non-ASCII (never CR LF in
+    // sequence, which would end the header line and make the stamp unobservable)
+    let sid_owned: String;
+    let sid: &str = if s.chance(200) {
+        ["Mock_Server", "", "id with spaces", "\u{e9}"][s.weighted(&[10, 1, 2, 1])]
+    } else {
+        const ALPHA: [&str; 20] = ["a", "Z", "0", "-", "_", "/", ".", " ", "\t", ":", ": ", "\u{1}", "\u{7f}", "\u{b}", "\r", "\n", "\u{e9}", "\u{a0}", "\u{3000}", "\0"];
+        let n = s.below(13);
+        let mut t = String::new();
+        for _ in 0..n {
+            t.push_str(ALPHA[s.weighted(&[8, 4, 4, 3, 2, 3, 3, 5, 5, 3, 2, 2, 2, 2, 1, 1, 2, 2, 1, 1])]);
+        }
+        sid_owned = t.replace("\r\n", "\r \n");
+        obs.label("generated_identity");
+        if sid_owned.chars().any(|c| c.is_control()) {
+            obs.label("identity_with_control_characters");
+        }
+        &sid_owned
+    };
     let (hits, misses, dup) = c17_run(prefix, &regs, &reqs, sid)?;
     if hits > 0 {
         obs.label("hit");
